@@ -128,6 +128,27 @@ pub fn set_src(db: &mut RootDatabase, name: &str, content: &str) -> CrateInput {
     crate_id.long(db_mut).clone().into_crate_input(db_mut)
 }
 
+/// Like `set_src`, for a crate that depends on other in-memory crates (by name) and optionally has a cache blob.
+pub fn set_src_deps(db: &mut RootDatabase, name: &str, content: &str, deps: &[&str], cache: Option<Vec<u8>>) -> CrateInput {
+    use cairo_lang_filesystem::db::{CrateSettings, DependencySettings};
+    let root = PathBuf::from(format!("/verif_virtual/{name}"));
+    let db_mut: &mut dyn Database = db;
+    let crate_id = CrateId::plain(db_mut, SmolStrId::from(db_mut, name));
+    let mut settings = CrateSettings::default();
+    for d in deps {
+        settings.dependencies.insert(d.to_string(), DependencySettings { discriminator: None });
+    }
+    if !deps.is_empty() {
+        settings.dependencies.insert("core".to_string(), DependencySettings { discriminator: None });
+    }
+    let cache_file = cache.map(|blob| cairo_lang_filesystem::ids::BlobLongId::Virtual(blob).intern(db_mut));
+    set_crate_config!(db_mut, crate_id, Some(CrateConfiguration { root: Directory::Real(root.clone()), settings, cache_file }));
+    let file_id = FileLongId::OnDisk(root.join("lib.cairo")).intern(db_mut);
+    override_file_content!(db_mut, file_id, Some(content.to_string().into()));
+    let crate_id = CrateId::plain(db_mut, SmolStrId::from(db_mut, name));
+    crate_id.long(db_mut).clone().into_crate_input(db_mut)
+}
+
 /// Diagnostics of one crate: (text, has_errors).
 pub fn diagnostics(db: &RootDatabase, ci: &CrateInput) -> (String, bool) {
     let mut s = String::new();
